@@ -27,8 +27,11 @@ EVIDENCE_DIR = os.path.join(VERIF, "evidence")
 def _own_new(res, prop, entries):
     from dst import findings
 
+    from dst.oracles import registry
+
     new, hits, trunc = findings.triage(entries, res.get("viol") or [])
-    return [v for v in new if v["prop"] == prop], hits, trunc
+    also = registry.ALSO.get(prop, ())
+    return [v for v in new if v["prop"] == prop or (v["prop"] in also and v["keys"].get("after_failure"))], hits, trunc
 
 
 def cmd_replay(path):
